@@ -771,7 +771,11 @@ func c03(c *Ctx) {
 			if p == "" {
 				emitPair(m, c03made{m.e, m.key, m.v, f2}, "same-input")
 			}
-			emitPair(m, ms[(i+1)%len(ms)], "same-ctor")
+			// the next value of the same constructor, under the same key (so that the payloads are compared)
+			n := ms[(i+1)%len(ms)]
+			if f3, p := c03CallCtor(n.e, m.key, n.v); p == "" {
+				emitPair(m, c03made{n.e, m.key, n.v, f3}, "same-ctor")
+			}
 		}
 	}
 	for i := 0; i < nPairs && len(pool) > 1; i++ {
